@@ -40,6 +40,17 @@ THEOREMS = ["C15_selects", "C15_selects_nontrivia", "C15_selects_text", "C15_sel
             "C15_parse_leaves_any_program", "C15_disabled_no_nodes", "C15_errors_any_program", "C15_disabled_no_errors",
             "C15_errors_skip_first", "C15_errors_grammar", "C15_disabled_no_errors_grammar",
             "C15_model_is_source", "C15_prep_next_is_source"]
+# ---- the parser primitives (coq/props/SyntaxSource.v): parser.rs by translation + proof, checked in a second proof step
+SOURCE_THEOREMS = ["Parser_prims_are_source_relation", "Parser_prims_are_source_new", "Parser_prims_are_source_lex",
+                   "Parser_prims_are_source_save", "Parser_prims_are_source_skip", "Parser_prims_are_source_eat",
+                   "Parser_prims_are_source_exec", "Parser_prims_are_source_at_eof_expect", "Parser_prims_are_source_finish",
+                   "Parser_prims_are_source_interp", "Parser_prims_are_source_parse"]
+SOURCE_TRUSTED = [
+    "parser.rs by translation: tools/translate/t_parser.py (+ the tokenizer / parser / rendering rules inherited from t_lexer.py, t_prep.py) and "
+    "coq/model/ParserMonad.v (state of ParserBase<PreProcessor<Lexer>>, Rust control flow, assert!/expect as Panic, TextRange::new, usize->TextSize "
+    "assumed to fit, Vec push order); rowan's GreenNodeBuilder = the contract ParserPrims.b_* as before; lexer.rs / preprocessor.rs by translation: "
+    "t_lexer.py + ScanMonad.v, t_prep.py + PrepMonad.v",
+]
 TRUSTED = [
     "Coq 8.16.1 kernel (coqc); Print Assumptions of every theorem is checked against the allow-list (none)",
     "statement of the specification coq/model/PrepSpec.v (items, items_ok, render_items, select, partial arrangements, missing_name), "
@@ -274,6 +285,32 @@ def run(ctx):
         ctx.cov["coq_cone"] = sorted(cone)
         fails = [f for f in fails if not (f.get("kind") == "forbidden-declaration"
                                           and f.get("where", "").split(":")[0] not in cone)]
+        # ---- the parser primitives are the source (props/SyntaxSource.v, translator t_parser): a separate cone whose
+        # obligations are added to the same evidence record
+        c1 = {k: ctx.cov.get(k) for k in ("obligations", "discharged", "theorems", "axioms_per_theorem", "checker_cmd",
+                                          "translators", "coq_wall_s")}
+        fails2 = vlib.proof_step(ctx, "TG.Props.SyntaxSource", SOURCE_THEOREMS, ["props/SyntaxSource.vo"], TRUSTED + SOURCE_TRUSTED,
+                                 translators=["t_tokens", "t_lexer", "t_prep", "t_parser"])
+        d2 = ctx.cov.get("discharged", 0)
+        tr2 = {f["translator"] for f in fails2 if f.get("kind") == "translator"}
+        if tr2:                       # stale coq/gen input: nothing about the generated parser is established for this tree
+            d2 = 0
+            ctx.cov.setdefault("stale_generated_input", {})["syntax_source_translators_failed"] = sorted(tr2)
+        cone2 = P.coq_cone("props/SyntaxSource.v")
+        ctx.cov["syntax_source"] = {"obligations": len(SOURCE_THEOREMS), "discharged": d2, "theorems": SOURCE_THEOREMS,
+                                    "coq_cone": sorted(cone2), "coq_wall_s": ctx.cov.get("coq_wall_s")}
+        a2 = ctx.cov.get("axioms_per_theorem", {})
+        ctx.cov["obligations"] = (c1["obligations"] or 0) + len(SOURCE_THEOREMS)
+        ctx.cov["discharged"] = (c1["discharged"] or 0) + d2
+        ctx.cov["theorems"] = list(c1["theorems"] or []) + SOURCE_THEOREMS
+        ctx.cov["axioms_per_theorem"] = dict(c1["axioms_per_theorem"] or {}, **a2)
+        ctx.cov["checker_cmd"] = "%s ; %s" % (c1["checker_cmd"], ctx.cov.get("checker_cmd"))
+        ctx.cov["translators"] = dict(c1["translators"] or {}, **ctx.cov.get("translators", {}))
+        ctx.cov["coq_wall_s"] = round((c1["coq_wall_s"] or 0) + (ctx.cov.get("coq_wall_s") or 0), 2)
+        seen_tr = {f["translator"] for f in fails if f.get("kind") == "translator"}
+        fails += [f for f in fails2
+                  if not (f.get("kind") == "translator" and f["translator"] in seen_tr)
+                  and not (f.get("kind") == "forbidden-declaration" and f.get("where", "").split(":")[0] not in cone2)]
     exe = vlib.build_model("prepspec")
     t_setup = time.time() - t0
     tab = P.Tables(vlib.REPO)
